@@ -158,6 +158,39 @@ def run_case(case):
                     apply_step(b, h, spec.get("numrep", "int"))
                 ballots[j] = b
 
+    def feed(idxs, kind, frozen=False):
+        """the ballots as an iterable of the requested KIND; '+fresh': every element is a temporary object built on
+        the fly (a copy-constructed ballot resp. a newly frozen one) that dies as soon as the consumer drops it"""
+        ikind = kind or "list"
+        fresh = ikind.endswith("+fresh")
+        k = ikind.split("+")[0]
+        if frozen:
+            f = (lambda i: FrozenC(ballots[i].frozen())) if fresh else (lambda i: ballots[i].frozen())
+        else:
+            f = (lambda i: BallotC(ballots[i])) if fresh else (lambda i: ballots[i])
+        if k == "list":
+            return [f(i) for i in idxs]
+        if k == "tuple":
+            return tuple(f(i) for i in idxs)
+        if k == "gen":
+            return (f(i) for i in idxs)
+        if k == "map":
+            return map(f, idxs)
+        if k == "iter":
+            return iter([f(i) for i in idxs])
+        raise ValueError("unknown iterable kind " + ikind)
+
+    def build_profile(idxs, kind, pmode):
+        if pmode == "extend":
+            pr = ProfileC(instance=inst)
+            pr.extend(feed(idxs, kind))
+            return pr
+        if pmode == "iadd":
+            pr = ProfileC(instance=inst)
+            pr += feed(idxs, kind)
+            return pr
+        return ProfileC(feed(idxs, kind), instance=inst)
+
     ops = case["ops"]
     mp = None
     rest = list(enumerate(ops))
@@ -165,13 +198,14 @@ def run_case(case):
     if ops and ops[0][0] in ("conv", "profile", "init"):
         first = ops[0]
         rest = rest[1:]
-        sel = [ballots[i] for i in first[1]]
+        ikind = first[2] if len(first) > 2 else "list"
+        pmode = first[3] if len(first) > 3 else "ctor"
         if first[0] == "conv":
-            mp = ProfileC(sel, instance=inst).as_multiprofile()
+            mp = build_profile(first[1], ikind, pmode).as_multiprofile()
         elif first[0] == "profile":
-            mp = MultiC(profile=ProfileC(sel, instance=inst), instance=inst)
+            mp = MultiC(profile=build_profile(first[1], ikind, pmode), instance=inst)
         else:
-            mp = MultiC([b.frozen() for b in sel], instance=inst)
+            mp = MultiC(feed(first[1], ikind, frozen=True), instance=inst)
     if mp is None:
         mp = MultiC(instance=inst)
     for t, op in rest:
@@ -179,14 +213,17 @@ def run_case(case):
         if op[0] == "append":
             mp.append(ballots[op[1]].frozen())
         elif op[0] == "extend":
-            mp.extend([ballots[i] for i in op[1]])
+            mp.extend(feed(op[1], op[2] if len(op) > 2 else "list"))
         elif op[0] == "extend_frozen":
-            mp.extend([ballots[i].frozen() for i in op[1]])
+            mp.extend(feed(op[1], op[2] if len(op) > 2 else "list", frozen=True))
+        elif op[0] == "update_frozen":
+            mp.update(feed(op[1], op[2] if len(op) > 2 else "list", frozen=True))     # Counter.update(iterable)
         elif op[0] == "extend_profile":
-            mp.extend(ProfileC([ballots[i] for i in op[1]], instance=inst))
+            mp.extend(build_profile(op[1], op[2] if len(op) > 2 else "list", op[3] if len(op) > 3 else "ctor"))
         elif op[0] == "extend_conv":
             # a second conversion: the ballots go through as_multiprofile of a fresh profile, then in one by one
-            for k, c in ProfileC([ballots[i] for i in op[1]], instance=inst).as_multiprofile().items():
+            for k, c in build_profile(op[1], op[2] if len(op) > 2 else "list",
+                                      op[3] if len(op) > 3 else "ctor").as_multiprofile().items():
                 for _ in range(c):
                     mp.append(k)
         else:
